@@ -219,6 +219,7 @@ func main() {
 	seed := flag.Uint64("seed", 1, "seed")
 	what := flag.String("what", "dec,lz,raw", "real mode: event kinds")
 	maxlen := flag.Int("maxlen", 9000, "real mode: max input length")
+	enum := flag.String("enum", "", "real mode: k/n/stride - this process runs the enumerated structural cases with index % n == k (common outer starts thinned to every stride-th)")
 	in := flag.String("scenarios", "", "ndjson scenarios")
 	out := flag.String("trace", "trace.ndjson", "trace output")
 	flag.Parse()
@@ -242,7 +243,13 @@ func main() {
 			runScript(tr, n, s, optsets[n%4])
 		}
 	case "real":
-		n = runReal(tr, realCfg{n: *nreal, seed: *seed, what: *what, maxlen: *maxlen, curFile: *out + ".cur"})
+		cfg := realCfg{n: *nreal, seed: *seed, what: *what, maxlen: *maxlen, curFile: *out + ".cur"}
+		if *enum != "" {
+			if _, err := fmt.Sscanf(*enum, "%d/%d/%d", &cfg.enumK, &cfg.enumN, &cfg.enumStride); err != nil {
+				vh.Fatal("bad -enum", *enum)
+			}
+		}
+		n = runReal(tr, cfg)
 	default:
 		vh.Fatal("unknown mode")
 	}
